@@ -44,7 +44,7 @@ def check(text: str) -> list[str]:
     body_end = len(lines) - 1 if lines and lines[-1] == "===END===" else len(lines)
     fence = None
     prev_indent = 0
-    bracket_depth = 0
+    open_lists: list[int] = []      # indent of every line that opened a still-open multi-line bracket
     for n in range(i, body_end):
         ln = lines[n]
         m = _FENCE.match(ln)
@@ -74,6 +74,19 @@ def check(text: str) -> list[str]:
         ci = code.find("//")
         if ci != -1:
             code = code[:ci]
+        # "exactly two spaces per level" inside a multi-line list: items sit two spaces deeper than the line that opened the
+        # bracket, the closing bracket sits at that line's own indent
+        if open_lists:
+            if code.strip().startswith("]"):
+                if indent != open_lists[-1]:
+                    out.append(f"indent:list-close:{n + 1}")
+            elif indent != open_lists[-1] + 2:
+                out.append(f"indent:list-item:{n + 1}")
+        net = code.count("[") - code.count("]")
+        if net > 0:
+            open_lists.extend([indent if not (open_lists and code.strip().startswith("]")) else indent] * net)
+        elif net < 0:
+            del open_lists[net:]
         if re.search(r" ::|:: ", code.rstrip()) and not code.rstrip().endswith("::"):
             out.append(f"space-around-assign:{n + 1}")
         elif re.search(r" ::", code):
